@@ -199,7 +199,7 @@ def run(tier):
     check_model(ck, m, "corpus", {}, stats)
     na = check_accessors(ck, cf, None, "corpus")
     n_corpus = stats["methods"]
-    ck.floor("generated methods in corpus", n_corpus, 240 if tier == "quick" else 1400)
+    ck.floor("generated methods in corpus", n_corpus, 240 if tier == "quick" else 1380)
     ck.floor("accessor implementations in corpus", na, 100)
     ct = facts.cfg_cglue(tests=True)
     ck.unit("cglue --tests (test traits + cglue::ext)")
